@@ -332,9 +332,15 @@ impl Display for Format<'_, Formula> {
         match self.0 {
             Formula::AtomicFormula(a) => Format(a).fmt(f),
             Formula::UnaryFormula { formula, .. } => self.fmt_unary(Format(formula.as_ref()), f),
-            Formula::QuantifiedFormula { formula, .. } => {
-                self.fmt_unary(Format(formula.as_ref()), f)
-            }
+            Formula::QuantifiedFormula { formula, .. } => match formula.as_ref() {
+                // a comparison can start with a variable, which the parser would read as
+                // part of the quantifier's variable list: `forall X (Y = 3)`
+                Formula::AtomicFormula(AtomicFormula::Comparison(_)) => {
+                    self.fmt_operator(f)?;
+                    write!(f, "({})", Format(formula.as_ref()))
+                }
+                _ => self.fmt_unary(Format(formula.as_ref()), f),
+            },
             Formula::BinaryFormula { lhs, rhs, .. } => {
                 self.fmt_binary(Format(lhs.as_ref()), Format(rhs.as_ref()), f)
             }
